@@ -265,7 +265,7 @@ func execC15(env *sim.Env, c C15Case) CaseResult {
 	diff := r.Pre.Diff(r.Post)
 	res.Log = fmt.Sprintf("C15 world=%s kind=%s flags=%s bin=%s status=%s diff=%v viol=%d", c.World.Digest(), c.Kind, run.Inv.FlagSet(), run.Bin, r.Obs.Status, diff, len(res.Viol))
 	if len(st.Samples) == 0 {
-		st.Samples = append(st.Samples, map[string]any{"world": c.World.Name, "kind": c.Kind, "argv": run.Inv.Args(), "cwd": run.Inv.Cwd, "gofile": run.Inv.GoFile,
+		st.Samples = append(st.Samples, map[string]any{"mode": strings.SplitN(c.Kind, "/", 2)[0], "world": c.World.Name, "kind": c.Kind, "argv": run.Inv.Args(), "cwd": run.Inv.Cwd, "gofile": run.Inv.GoFile,
 			"status": r.Obs.Status, "tree_diff": diff, "fired": r.Obs.Fired})
 	}
 	if c.Twin {
